@@ -315,8 +315,25 @@ pub fn check(check: &mut Check) {
   let ctx = check.ctx.clone();
   let n = ctx.tier.pick(1000u64, 150_000u64);
   let n = std::env::var("VERIF_CONC_CASES").ok().and_then(|s| s.parse().ok()).unwrap_or(n); // development aid
-  let out = vcore::drive(&ctx, &check.findings, 5, n, scenario_strategy, |s| {
-    let r = execute(s);
+  // E4 programs run under real scheduling: when vcore re-executes a program that already failed once
+  // (shrinking, final confirmation) a passing run is repeated up to 100 times before it counts as
+  // passing — otherwise a violation is reported under a `nonreproducible/...` signature.
+  let failed_once: Arc<Mutex<BTreeSet<u64>>> = Default::default();
+  let prop = ctx.property.clone();
+  let out = vcore::drive(&ctx, &check.findings, 5, n, scenario_strategy, move |s| {
+    let h = vcore::hash_str(&serde_json::to_string(s).unwrap_or_default());
+    let mut r = execute(s);
+    if r.is_ok() && failed_once.lock().unwrap().contains(&h) {
+      for _ in 0..100 {
+        r = execute(s);
+        if r.is_err() {
+          break;
+        }
+      }
+    }
+    if matches!(&r, Err(f) if f.property == prop) {
+      failed_once.lock().unwrap().insert(h);
+    }
     // development aid (never set by vf): dump failing programs, they are statistical
     if let (Err(f), Ok(dir)) = (&r, std::env::var("VERIF_CONC_DUMP")) {
       let rp = vcore::Replay { property: f.property.clone(), engine: crate::ENGINE_CONC.into(), signature: f.signature.clone(), message: f.message.clone(), seed: 0, scenario: serde_json::to_value(s).unwrap() };
